@@ -140,6 +140,7 @@ type recAlloc struct {
 	AllocFail int
 	Releases  int
 	Blocks    []*blockRec
+	AllocSeqs []int // seq of every NewBlock
 	FailNext  int
 	// OnNewBlock is called (baton held) when a region is handed out.
 	OnNewBlock func(b *blockRec)
@@ -163,6 +164,7 @@ func (a *recAlloc) NewBlock() (local.Block, *pb_local.BlockLocation, error) {
 		return nil, nil, err
 	}
 	a.Allocs++
+	a.AllocSeqs = append(a.AllocSeqs, a.env.s.Steps)
 	a.env.c.Logf("alloc: NewBlock #%d loc=%v", len(a.Blocks), loc)
 	rec := &blockRec{ID: len(a.Blocks), Loc: loc}
 	a.Blocks = append(a.Blocks, rec)
@@ -208,7 +210,14 @@ func (b *recBlock) Put(sizeBytes int64) local.BlockPutWriter {
 		b.rec.ActiveW++
 		f := w(buf)
 		b.rec.ActiveW--
-		return f
+		return func() (int64, error) {
+			e := b.a.env
+			g := e.s.Cur().ID
+			e.finalizeSeq[g] = e.s.Steps
+			e.finalizeTime[g] = e.s.Now()
+			e.lastFinalizeSeq = e.s.Steps
+			return f()
+		}
 	}
 }
 
@@ -310,6 +319,73 @@ type storeEnv struct {
 	stateWrites, stateDone int
 	restoredBlocks         int
 	restore                func()
+	rounds                 []*syncRound
+	swrites                []*stateWrite
+	finalizeSeq            map[int]int           // goroutine id -> seq of its last block put finalizer
+	finalizeTime           map[int]time.Duration // goroutine id -> sim time of its last block put finalizer
+	lastFinalizeSeq        int
+	activeStateWrites      int
+	shutdownSeq            int                   // seq at which shutdown was requested (0 = not)
+	routineReturned        bool
+}
+
+// syncRound is one NotifySyncStarting … NotifySyncCompleted bracket.
+type syncRound struct {
+	Final              bool
+	StartSeq, DoneSeq  int
+	StartT, DoneT      time.Duration
+	DataSyncCalls      int
+	DataSyncFailures   int
+}
+
+// stateWrite is one GetPersistentState … NotifyPersistentStateWritten bracket.
+type stateWrite struct {
+	GetSeq, DoneSeq int
+	GetT, DoneT     time.Duration
+	Blocks          int
+	Epochs          int
+	OK              bool
+}
+
+// recSource observes the protocol between PeriodicSyncer and the block list.
+type recSource struct {
+	base local.PersistentStateSource
+	e    *storeEnv
+}
+
+func (r *recSource) GetBlockReleaseWakeup() <-chan struct{} { return r.base.GetBlockReleaseWakeup() }
+func (r *recSource) GetBlockPutWakeup() <-chan struct{}     { return r.base.GetBlockPutWakeup() }
+func (r *recSource) NotifySyncStarting(isFinalSync bool) {
+	r.e.rounds = append(r.e.rounds, &syncRound{Final: isFinalSync, StartSeq: r.e.s.Steps, StartT: r.e.s.Now()})
+	r.e.c.Logf("syncer: NotifySyncStarting(final=%v) t=%v", isFinalSync, r.e.s.Now())
+	r.base.NotifySyncStarting(isFinalSync)
+}
+func (r *recSource) NotifySyncCompleted() {
+	if n := len(r.e.rounds); n > 0 {
+		r.e.rounds[n-1].DoneSeq = r.e.s.Steps
+		r.e.rounds[n-1].DoneT = r.e.s.Now()
+	}
+	r.e.c.Logf("syncer: NotifySyncCompleted t=%v", r.e.s.Now())
+	r.base.NotifySyncCompleted()
+}
+func (r *recSource) GetPersistentState() (uint32, []*pb_local.BlockState) {
+	id, blocks := r.base.GetPersistentState()
+	ep := 0
+	for _, b := range blocks {
+		ep += len(b.EpochHashSeeds)
+	}
+	r.e.swrites = append(r.e.swrites, &stateWrite{GetSeq: r.e.s.Steps, GetT: r.e.s.Now(), Blocks: len(blocks), Epochs: ep})
+	r.e.c.Logf("syncer: GetPersistentState blocks=%d epochs=%d t=%v", len(blocks), ep, r.e.s.Now())
+	return id, blocks
+}
+func (r *recSource) NotifyPersistentStateWritten() {
+	if n := len(r.e.swrites); n > 0 {
+		r.e.swrites[n-1].DoneSeq = r.e.s.Steps
+		r.e.swrites[n-1].DoneT = r.e.s.Now()
+		r.e.swrites[n-1].OK = true
+	}
+	r.e.c.Logf("syncer: NotifyPersistentStateWritten t=%v", r.e.s.Now())
+	r.base.NotifyPersistentStateWritten()
 }
 
 type rtRWMutex = rt.RWMutex
@@ -348,7 +424,8 @@ func (dummyCapabilities) GetCapabilities(ctx context.Context, instanceName diges
 // buildStoreParts assembles a local store from the exported constructors in
 // the order new_blob_access.go uses (W-parts), with recording decorators.
 func buildStoreParts(c *sim.RunCtx, s *rt.Sched, cfg *storeCfg, m *media, proc int, seed int64) *storeEnv {
-	e := &storeEnv{c: c, s: s, cfg: cfg, proc: proc, data: m.data, index: m.index, dir: m.dir}
+	e := &storeEnv{c: c, s: s, cfg: cfg, proc: proc, data: m.data, index: m.index, dir: m.dir,
+		finalizeSeq: map[int]int{}, finalizeTime: map[int]time.Duration{}}
 	e.restore = installDetRandom(seed)
 	e.clock = sim.NewClock(s)
 	e.log = &recLogger{}
@@ -388,12 +465,17 @@ func buildStoreParts(c *sim.RunCtx, s *rt.Sched, cfg *storeCfg, m *media, proc i
 		e.pbl, initialBlocks = local.NewPersistentBlockList(e.alloc, ps.OldestEpochId, ps.Blocks)
 		e.restoredBlocks = initialBlocks
 		blockList = e.pbl
-		syncer := local.NewPeriodicSyncer(e.pbl, e.lock, &recStateStore{base: store, e: e}, e.clock, e.log, cfg.RetryIvl, cfg.MinEpoch, hashInit,
+		syncer := local.NewPeriodicSyncer(&recSource{base: e.pbl, e: e}, e.lock, &recStateStore{base: store, e: e}, e.clock, e.log, cfg.RetryIvl, cfg.MinEpoch, hashInit,
 			func() error {
 				e.syncStarts++
+				if n := len(e.rounds); n > 0 {
+					e.rounds[n-1].DataSyncCalls++
+				}
 				err := m.data.Sync()
 				if err == nil {
 					e.syncDone++
+				} else if n := len(e.rounds); n > 0 {
+					e.rounds[n-1].DataSyncFailures++
 				}
 				return err
 			})
@@ -406,6 +488,7 @@ func buildStoreParts(c *sim.RunCtx, s *rt.Sched, cfg *storeCfg, m *media, proc i
 		e.group.Go(func(ctx context.Context, siblingsGroup, dependenciesGroup program.Group) error {
 			for syncer.ProcessBlockPut(ctx) {
 			}
+			e.routineReturned = true
 			return nil
 		})
 	}
@@ -445,7 +528,12 @@ func (r *recStateStore) ReadPersistentState() (*pb_local.PersistentState, error)
 
 func (r *recStateStore) WritePersistentState(ps *pb_local.PersistentState) error {
 	r.e.stateWrites++
+	r.e.activeStateWrites++
+	if r.e.activeStateWrites > 1 {
+		r.e.c.Fail("overlapping-state-writes", "two WritePersistentState calls overlap")
+	}
 	err := r.base.WritePersistentState(ps)
+	r.e.activeStateWrites--
 	if err == nil {
 		r.e.stateDone++
 	}
